@@ -114,7 +114,11 @@ PolyD1 == UNION {{Un(q, a), Un(a, q), Cu(q, a), Cu(a, q), An(q, a), An(a, q)} : 
           \cup {Tr(q, t) : q \in Polys, t \in TransVecs} \cup {Ro(q, m, p) : q \in Polys, m \in Rots, p \in RotPts}
           \cup {Pr(q, i) : q \in Polys, i \in Ints} \cup {Pr(i, q) : q \in Polys, i \in Ints}
 MeshD1 == {Un(MeshTet, Sph), Cu(Sph, MeshCube), Cu(MeshCube, Sph), An(MeshBi, SphT), An(Sph, MeshTet), Un(MeshCube, MeshBi), Cu(MeshCube, MeshTet)}
-Exh == Prims2 \cup Ints \cup {IntBig} \cup {Sph, SphT} \cup Polys \cup Meshes \cup PolyD1 \cup MeshD1 \cup RotQ1 \cup RotQ2 \cup Rot3D1 \cup {x \in Depth1 : x.k \notin {"union", "cut", "and"} \/ x.l # x.r}
+\* a disc whose radius 1 - t is zero at t = 1 and NEGATIVE at t = 2 (empty there); only in the membership / sampling universe
+CirNeg == Cir(V2(0, 0), A2(4, "t", -1))
+NegD1 == {CirNeg, Un(CirNeg, Par(V2(0, 0), V2(8, 0), V2(0, 8))), Cu(Par(V2(-8, -6), V2(4, -2), V2(-4, 6)), CirNeg), Pr(CirNeg, [k |-> "interval", v |-> "u", lo |-> A0(-4), hi |-> A0(6)]),
+          Tr(CirNeg, V2(4, -2))}
+Exh == Prims2 \cup Ints \cup {IntBig} \cup {Sph, SphT} \cup Polys \cup Meshes \cup PolyD1 \cup MeshD1 \cup RotQ1 \cup RotQ2 \cup Rot3D1 \cup NegD1 \cup {x \in Depth1 : x.k \notin {"union", "cut", "and"} \/ x.l # x.r}
 
 \* ---- random growth
 R(S) == RandomElement(S)
